@@ -125,7 +125,7 @@ theorem plan_skip {P : Params} {t : Tree} {o : Opts} {s : BSt} {l : Label} {d : 
     · rename_i hc
       cases h
       simp only [Bool.and_eq_true, Bool.not_eq_eq_eq_not, Bool.not_true] at hc
-      obtain ⟨⟨⟨h1, h2⟩, h3⟩, h4⟩ := hc
+      obtain ⟨⟨⟨h1, h2, _⟩, h3⟩, h4⟩ := hc
       refine ⟨rfl, h1, h4, h3, ?_⟩
       intro x hx
       obtain ⟨m, hm, hok⟩ := deps_ok_of_find_none hfind x hx
@@ -137,6 +137,20 @@ theorem plan_skip {P : Params} {t : Tree} {o : Opts} {s : BSt} {l : Label} {d : 
         simp only [Bool.and_eq_true, Bool.not_eq_eq_eq_not, Bool.not_true, beq_iff_eq] at this
         exact ⟨m, hm, hok, this.1, by rw [hl, this.2]⟩
       · cases this
+    · split at h <;> cases h
+
+/-- A skipped target's record lists exactly as many dependencies as the target has now (D28 repair). -/
+theorem plan_skip_length {P : Params} {t : Tree} {o : Opts} {s : BSt} {l : Label} {d : Def} {info : Rec}
+    (h : plan P t o s l d = .skip info) : (!P.depCount || info.deps.length == (depsOf t l d).length) = true := by
+  unfold plan at h
+  simp only at h
+  split at h
+  · cases h
+  · split at h
+    · rename_i hc
+      cases h
+      simp only [Bool.and_eq_true] at hc
+      exact hc.1.1.2.2
     · split at h <;> cases h
 
 theorem plan_run {P : Params} {t : Tree} {o : Opts} {s : BSt} {l : Label} {d : Def} {info : Rec}
